@@ -607,3 +607,22 @@ def first_diff(a, b):
 
 def sample(lst, k=3):
     return lst[:k]
+
+
+def poly_oracle_tie(ctx):
+    """Ties the PYTHON polynomial oracle (poly_judge above, dyn_poly_verdict in dyn_common.py) to its Coq mirror
+    (Proofs/PolyOracleDefs.v: poly_status, dyn_poly_status, poly_cert_test, prop_ground), whose soundness against the
+    semantics is proved in Properties/C03poly.v / C03polytop.v / C08poly.v: tools/poly_compare.py runs both on the same
+    synthetic frameworks, lists and returned sets (the Coq side by vm_compute) and every decision must coincide."""
+    import re
+    n = 120 if ctx.thorough else 40
+    with Lock("coq"):
+        rc, out = sh("python3 %s %d %d" % (os.path.join(ROOT, "tools", "poly_compare.py"), ctx.seed % 100000 + 1, n), timeout=1300)
+    m = re.search(r"frameworks (\d+), status decisions (\d+) .*returned sets (\d+), dynamic decisions (\d+): all equal", out)
+    ok = rc == 0 and m is not None
+    if ok:
+        ctx.cov["polynomial_oracle_vs_coq_mirror"] = {"frameworks": int(m.group(1)), "status_decisions": int(m.group(2)),
+                                                      "returned_sets": int(m.group(3)), "dynamic_decisions": int(m.group(4)), "differences": 0}
+    else:
+        ctx.violation("the python polynomial oracle and its Coq mirror (Proofs/PolyOracleDefs.v, proved sound in Properties/C03poly.v) disagree or could not be compared: the verdicts of the polynomial oracle are not backed by the theorems on this run",
+                      "tools/poly_compare.py\n" + out[-3000:], found_input=False, key="polytie")
